@@ -91,7 +91,7 @@ func (p *PauseController) Pause(failAfter time.Duration) error {
 	defer p.lock.Unlock()
 	defer func() { verifEvent("gate-set", p, int(p.State), p.pauseChannel) }()
 
-	if p.State != PauseStatePaused {
+	if p.State != PauseStatePaused || p.pauseChannel == nil {
 		p.pauseChannel = make(chan bool)
 	}
 
